@@ -407,6 +407,38 @@ func init() {
 				}
 			}
 		}
+		c.Phase("multisig-shapes") // CHECKMULTISIG without a signature to remove, behind code separators in taken / untaken branches, followed by other opcodes or a top-level OP_RETURN with raw bytes
+		{
+			n = 0
+			pk := gen.Push(c07KeyG)
+			forkSig := gen.Push(append([]byte{0x30, 0x06, 0x02, 0x01, 0x01, 0x02, 0x01, 0x01}, 0x41))
+			prefixes := [][]byte{nil, {0x00, 0x63, 0xab, 0x68}, {0x51, 0x63, 0xab, 0x68}, {0xab}, {0x00, 0x63, 0xab, 0x67, 0x68}, {0x61, 0xab, 0x61}}
+			type ms struct{ u, l []byte }
+			multis := []ms{
+				{[]byte{0x51}, []byte{0x00, 0x00, 0x00, 0xae}},                                      // 0-of-0 (unlock leaves a spare item)
+				{[]byte{0x00}, append(append([]byte{0x00}, pk...), 0x51, 0xae)},                     // 0-of-1
+				{[]byte{0x00, 0x00}, append(append([]byte{0x51}, pk...), 0x51, 0xae)},               // 1-of-1, empty signature
+				{append([]byte{0x00}, forkSig...), append(append([]byte{0x51}, pk...), 0x51, 0xae)}, // 1-of-1, FORKID-typed signature
+				{[]byte{0x00, 0x00}, append(append(append([]byte{0x51}, pk...), pk...), 0x52, 0xae)},
+				{[]byte{0x00}, append(append([]byte{0x00}, pk...), 0x51, 0xaf, 0x51)}, // CHECKMULTISIGVERIFY
+			}
+			tails := [][]byte{nil, {0x6a}, {0x6a, 0xff}, {0x6a, 0x01, 0x02}, {0x51}, {0x91}, {0xab, 0x51}, {0x75, 0x51, 0x6a, 0x42}}
+			flagSets := []uint32{0, uint32(scriptflag.UTXOAfterGenesis), uint32(scriptflag.UTXOAfterGenesis | scriptflag.EnableSighashForkID), uint32(scriptflag.VerifyNullFail | scriptflag.StrictMultiSig)}
+			for _, pre := range prefixes {
+				for _, m := range multis {
+					for _, tl := range tails {
+						for _, fl := range flagSets {
+							n++
+							if !c.Case(n) {
+								continue
+							}
+							l := append(append(append([]byte{}, pre...), m.l...), tl...)
+							judge(c, &c07Input{Unlock: m.u, Lock: l, Flags: fl, Mode: "tx", Dbg: []string{"none", "recording"}[n%2], Ctx: defaultCtx(), Src: "multisig-shapes"})
+						}
+					}
+				}
+			}
+		}
 		c.Phase("der-variants") // structurally malformed signatures: every component missing, shortened or mis-sized, with the outer length kept consistent so that the deeper checks are reached
 		n = 0
 		pub := append([]byte{0x02}, bytesOf(0x11, 32)...)
